@@ -86,6 +86,11 @@ impl Faults {
                 for (k, w, max_arg) in kinds {
                     acc += w * rate; // per-mille * per-mille = per-million
                     if x < acc {
+                        // at most three slow sends per run, so that a bounded rest at the end of a
+                        // scenario is enough for the system to catch up
+                        if *k == "send_slow" && self.fired.iter().filter(|f| f.kind == "send_slow").count() >= 3 {
+                            return None;
+                        }
                         let arg = if *max_arg == 0 { 0 } else { a % (max_arg + 1) };
                         self.fired.push(FaultDecision { stream: stream.to_string(), idx, kind: k.to_string(), arg });
                         return Some((k, arg));
